@@ -112,10 +112,16 @@ def check(run):
     run.extra["exen_return"] = [list(x) for x in elts]
     pnames = exen.params()[0]
     binds = {n.targets[0].id: unparse(n.value) for n in walk_local(exen.node) if isinstance(n, ast.Assign) and isinstance(n.targets[0], ast.Name)}
-    for var, param in (("nears", pnames[0]), ("fars", pnames[1])):
-        ok = binds.get(var) == "%s.pile" % param
-        run.ob("C25.R1", "%s:%s-is-%s-pile" % (exen.fq, var, param), ok, run.site(exen),
-               "" if ok else "exen() slices `%s = %s`; the boxes to enter/exit must come from the whole %s.pile" % (var, binds.get(var), param))
+    used = sorted({x[0] for x in elts if x[0]})
+    pilevar = {}
+    for role, param in (("nears", pnames[0]), ("fars", pnames[1])):
+        cands = [v for v, t in binds.items() if t == "%s.pile" % param]
+        ok = len(cands) == 1 and cands[0] in used
+        if ok:
+            pilevar[cands[0]] = role
+        run.ob("C25.R1", "%s:%s-is-%s-pile" % (exen.fq, role, param), ok, run.site(exen),
+               "" if ok else "exen() does not slice a variable bound to the whole %s.pile (bindings: %s; sliced: %s)" % (param, {k: v for k, v in binds.items() if "pile" in v or k in used}, used))
+    elts = [(pilevar.get(x[0], x[0]), x[1], x[2]) for x in elts]
     # follow by position through the unpacking in run
     unpack = [n for n in walk_local(runf.node) if isinstance(n, ast.Assign) and isinstance(n.value, ast.Call) and is_self_call(n.value, "exen")
               and isinstance(n.targets[0], ast.Tuple)]
